@@ -49,8 +49,8 @@ func NewServer(db *DB) *Server { return &Server{DB: db, FaultsFired: map[FaultKi
 // Open returns a *sql.DB speaking to the server over one connection.
 func (s *Server) Open() *sql.DB {
 	db := sql.OpenDB(connector{s})
-	db.SetMaxOpenConns(1)
-	db.SetMaxIdleConns(1)
+	db.SetMaxOpenConns(4)
+	db.SetMaxIdleConns(4)
 	return db
 }
 
@@ -96,6 +96,9 @@ type conn struct {
 	// later command until the end of the transaction block (25P02)
 	aborted bool
 	broken  bool
+	// openRows counts result sets of this connection that were neither read to
+	// the end nor closed: the wire protocol cannot start another statement then
+	openRows int
 	closed bool
 }
 
@@ -259,6 +262,11 @@ func (s *stmt) run(op string, args []driver.Value) (*Result, error) {
 		c.log(ev, errInjected)
 		return nil, errInjected
 	}
+	if c.openRows > 0 {
+		err := &Error{Class: "state", Msg: "pq: unexpected Parse response 'D': a previous result set of this connection is still open (rows not closed)", Stmt: s.sql}
+		c.log(ev, err)
+		return nil, err
+	}
 	if c.inTx && c.aborted {
 		err := &Error{Class: "aborted", Msg: "current transaction is aborted, commands ignored until end of transaction block", Stmt: s.sql}
 		c.log(ev, err)
@@ -296,12 +304,15 @@ func (s *stmt) Query(args []driver.Value) (driver.Rows, error) {
 	if err != nil {
 		return nil, err
 	}
-	return &rows{res: res}, nil
+	s.c.openRows++
+	return &rows{res: res, c: s.c}, nil
 }
 
 type rows struct {
-	res *Result
-	pos int
+	res    *Result
+	pos    int
+	c      *conn
+	closed bool
 }
 
 func (r *rows) Columns() []string {
@@ -310,7 +321,13 @@ func (r *rows) Columns() []string {
 	}
 	return r.res.Cols
 }
-func (r *rows) Close() error { return nil }
+func (r *rows) Close() error {
+	if !r.closed {
+		r.closed = true
+		r.c.openRows--
+	}
+	return nil
+}
 func (r *rows) Next(dest []driver.Value) error {
 	if r.res.broken && r.pos >= r.res.breakAfter {
 		return errInjected
